@@ -22,6 +22,9 @@ def run(tier: str, seed: int):
         e3c += list(F.fam_e3(F.fam_shapes(1, 3, pre=False), workers=(None,), cpu_count=1, liveness=False))
         e3c += list(F.fam_e3(F.fam_limits(2, 3, tnames=('TA',)), workers=(1, 2), backends=('fork',), liveness=False, linger=True))
         e3c += list(F.fam_e3(F.fam_faults(1, 3, max_faults=1, reqs='sinks', kinds=('raise',), fault_exc='filter', types='TX', cofs=(True,)), workers=(1, 2), liveness=False))
+        # bounded Manager queues scaled down to one slot (a run that outgrows a bounded queue nobody drains), displays off and on
+        e3c += list(F.fam_e3(F.fam_shapes(2, 3, pre=False), workers=(1, 2), backends=('fork',), liveness=False, queue_scale=1))
+        e3c += list(F.fam_e3(F.fam_limits(2, 2, tnames=('TA',)), workers=(2,), backends=('fork',), liveness=False, queue_scale=1, monitor=True))
     else:
         cfgs = (list(F.fam_faults(1, 4, max_faults=2, reqs='subsets', batch=3)) + list(F.fam_faults(5, 5, max_faults=1, reqs='sinks'))
                 + list(F.fam_limits(1, 4, batch=3, faults=True, stutter=True, tnames=('TA', 'TB', 'TC', 'TD'))) + list(F.fam_shapes(1, 5, batch=2)))
@@ -31,4 +34,5 @@ def run(tier: str, seed: int):
         e3c += list(F.fam_e3(list(F.fam_faults(1, 3, max_faults=2)) + list(F.fam_limits(1, 3, tnames=('TA', 'TB', 'TC'), faults=True)), workers=(1, 2, None), die_exit0=(False, True))) + list(F.fam_e3(F.fam_faults(4, 4, max_faults=1, reqs='sinks'), workers=(1, 2), liveness=False))
         e3c += list(F.fam_e3(F.fam_shapes(1, 4, pre=False), workers=(None,), cpu_count=1, liveness=False)) + list(F.fam_e3(F.fam_limits(2, 3, tnames=('TA', 'TB')), workers=(1, 2), linger=True))
         e3c += list(F.fam_e3(F.fam_faults(1, 3, max_faults=2, kinds=('raise',), fault_exc='filter', types='TX'), workers=(1, 2), liveness=False))
+        e3c += list(F.fam_e3(F.fam_shapes(2, 3, pre=False), workers=(1, 2), liveness=False, queue_scale=1)) + list(F.fam_e3(F.fam_shapes(2, 3, pre=False), workers=(1, 2), liveness=False, queue_scale=2, monitor=True))
     return run_e2_property('C11', tier, seed, cfgs, serial_configs=serial, e3_configs=e3c, real_cases=list(F.fam_real(F.real_bases('faults') + F.real_bases('limits'), workers=(1, 2))), rule=rule, assumptions=ASSUME)
